@@ -75,8 +75,8 @@ ModelDirective(el) ==
          [] el.tag.name = "input" ->
               LET ty == TypeAttr(el.attrs) IN
               CASE ty.k = "absent" -> vd("vModelText")
-                [] ty.k = "str" -> IF ty.syms = <<"c">> THEN vd("vModelCheckbox")       \* type="c…": see MC_C05
-                                   ELSE IF ty.syms = <<"r">> THEN vd("vModelRadio") ELSE vd("vModelText")
+                [] ty.k = "str" -> IF ty.syms = <<"w_checkbox">> THEN vd("vModelCheckbox")
+                                   ELSE IF ty.syms = <<"w_radio">> THEN vd("vModelRadio") ELSE vd("vModelText")
                 [] OTHER -> vd("vModelDynamic")
          [] OTHER -> AnyV
 
@@ -95,14 +95,19 @@ VModelBinding(m, el) ==
              [] OTHER -> Eval(m.argexpr),
    mods |-> IF VModelMods(m) = <<>> THEN NoMods ELSE ModsObj(VModelMods(m))]
 
-VModelPropArg(m, host, alt) ==
+(* Deviation (known finding, DESIGN 7 #15): the listener key of a computed v-model argument is   *)
+(* built as "onUpdate" + arg, without the colon.                                                  *)
+UpdKey(m, n, o) ==
+  IF m.argform = "computed2" /\ "Dev_ComputedModelListenerNoColon" \in o.devs THEN "onUpdate" \o n ELSE "onUpdate:" \o n
+
+VModelPropArg(m, host, alt, o) ==
   IF host THEN
     LET n == VModelArgName(m) IN
     <<Obj(<< <<n, Eval(m.target)>> >>
           \o (IF VModelMods(m) = <<>> THEN <<>>
               ELSE << <<(IF n = "modelValue" THEN "model" ELSE n) \o "Modifiers", ModsObj(VModelMods(m))>> >>)
-          \o << <<"onUpdate:" \o n, Upd(m)>> >>)>>
-  ELSE <<Obj(<< <<(IF alt = 2 /\ m.argform # "none" THEN "onUpdate:" \o VModelArgName(m) ELSE "onUpdate:modelValue"), Upd(m)>> >>)>>
+          \o << <<UpdKey(m, n, o), Upd(m)>> >>)>>
+  ELSE <<Obj(<< <<(IF alt = 2 /\ m.argform # "none" THEN UpdKey(m, VModelArgName(m), o) ELSE "onUpdate:modelValue"), Upd(m)>> >>)>>
        \* v-model:arg on a form *element*: either listener key is accepted (DESIGN 6.0)
 
 (* the object each attribute contributes, in source order *)
@@ -114,7 +119,7 @@ PropArg(a, o, host, alt) ==
     [] a.k = "spread" -> <<Eval(a.e)>>
     [] a.k = "vhtml"  -> <<Obj(<< <<"innerHTML", DirValue(a.val)>> >>)>>
     [] a.k = "vtext"  -> <<Obj(<< <<"textContent", DirValue(a.val)>> >>)>>
-    [] a.k = "vmodel" -> VModelPropArg(a, host, alt)
+    [] a.k = "vmodel" -> VModelPropArg(a, host, alt, o)
     [] OTHER -> <<>>
 
 RECURSIVE PropArgs(_, _, _, _, _)
